@@ -56,6 +56,17 @@ def judgeC01Plain (ops impl : List String) : Bool × String :=
       let got := (outAll.map (fun o => o.2.2.1)).mergeSort (· ≤ ·)
       if want == got then (true, "ok") else
         (false, s!"reuse: sample times differ: accepted {want.length} output {got.length}")
+    else if Life.grammarOk cfg.ref rs then
+      -- inside the FORK / EXEC grammar the eager lifecycle `Life` says which incarnation of the pid / tid is
+      -- current at every sample: the key is the *entry* (`pid`, `pid.1`, … / `tid`, `tid.1`, …), not the number
+      -- (`C01_conservation_entry`): a sample in the entry of an earlier or later incarnation is a violation
+      let want := ((acceptedInc cfg.ref rs).map
+        (fun a => s!"{idStr a.pid a.psuffix} {idStr a.tid a.tsuffix} {a.t - cfg.ref}")).mergeSort strLe
+      let got := (threads.flatMap (fun t => t.samples.map (fun s => s!"{t.pid} {t.tid} {s.1}"))).mergeSort strLe
+      if want == got then (true, "ok") else
+        let missing := want.filter (fun w => !got.contains w)
+        let extra := got.filter (fun g => !want.contains g)
+        (false, s!"samples differ (keyed by entry): accepted {want.length} output {got.length}; missing (pid-entry tid-entry t) {missing.take 3}; unexpected {extra.take 3}")
     else
       let want := (acc.map (fun a => (a.pid, a.tid, a.t - cfg.ref))).mergeSort natLe
       let got := (outAll.map (fun o => (o.1, o.2.1, o.2.2.1))).mergeSort natLe
